@@ -37,7 +37,7 @@ impl JsonGen {
                 0 => json!({"whitespace_flexible": false}),
                 1 => json!({"whitespace_flexible": false, "item_separator": ", ", "key_separator": ": "}),
                 2 => json!({"whitespace_pattern": "[ \\n]{0,2}"}),
-                3 => json!({"item_separator": "\\s{0,2},\\s{0,2}", "key_separator": "\\s{0,2}:\\s{0,2}", "whitespace_flexible": false}),
+                3 => json!({"item_separator": "[ \\n]{0,2},[ \\n]{0,2}", "key_separator": "[ ]{0,2}:[ ]{0,2}", "whitespace_flexible": false}),
                 _ => json!({"json_allowed_escapes": "nrt\\\""}),
             };
             root.as_object_mut().unwrap().insert("x-guidance".into(), xg);
